@@ -543,6 +543,20 @@ def pyref_type(t, want_cells=False):
                 cells.append(raw["key"])
                 active = raw["key"] < t["mthr"][j]
         table.append((r["name"], nan_ok and mode_ok, cells))
+    if want_cells == "best":
+        # "Best features are the n_best of EACH measure" (theorem C14_best_feature_returned): the
+        # strictly best complete feature of every ranking measure that was computed
+        exists = [any(c[j] != "missing" for _, _, c in table) for j in range(len(ms))]
+        complete = [(f, c) for f, ok, c in table
+                    if ok and all((not exists[j]) or (c[j] not in ("missing", "nan")) for j in range(len(ms)))]
+        res = []
+        for j in range(len(ms)):
+            if exists[j] and RANKING[ms[j]] and complete:
+                top = max(c[j] for _, c in complete)
+                best = [f for f, c in complete if c[j] == top]
+                if len(best) == 1:
+                    res.append((ms[j], best[0]))
+        return res
     if want_cells:
         return {f: c for f, _, c in table}
     exists = [any(c[j] != "missing" for _, _, c in table) for j in range(len(ms))]
@@ -643,6 +657,13 @@ def spec_failures(case, tabs, sel):
                         fails.append(("independent", dtype,
                                       f"{f} and {g} are both returned, {flt['kind']} association "
                                       f"{_assoc(flt, f, g)} > thresh_corr"))
+        if t.get("cs") is None and t["n_best"] >= 1:
+            for k, f in (pyref_type(t, want_cells="best") or []):
+                if f not in out:
+                    fails.append(("best", dtype,
+                                  f"{f} has the strictly largest {k} value among the features measured with every "
+                                  f"computed measure and is not returned ({out}): the n_best best features of EACH "
+                                  f"measure must be returned (ranking of this measure by another one?)"))
         n = t["n"]
         for f in names:
             if f in out:
